@@ -5,6 +5,8 @@ import Driver.Cmd.Callstacks
 import Driver.Cmd.TraceCodes
 import Driver.Cmd.Filters
 import Driver.Cmd.Format
+import Driver.Cmd.OsLog
+import Driver.Cmd.Flags
 /-
   Line-protocol driver: one operation per line on stdin, one canonical answer per line on
   stdout.  Byte strings and texts travel as hex.  Imports no Mathlib (so it links).
@@ -13,7 +15,7 @@ import Driver.Cmd.Format
 open Driver
 
 def allCommands : List (String × Cmd) :=
-  Driver.Kevent.commands ++ Driver.Pairing.commands ++ Driver.Render.commands ++ Driver.Callstacks.commands ++ Driver.TraceCodes.commands ++ Driver.Filters.commands ++ Driver.Format.commands
+  Driver.Kevent.commands ++ Driver.Pairing.commands ++ Driver.Render.commands ++ Driver.Callstacks.commands ++ Driver.TraceCodes.commands ++ Driver.Filters.commands ++ Driver.Format.commands ++ Driver.OsLog.commands ++ Driver.Flags.commands
 
 def dispatch (line : String) : String :=
   match (line.trimAscii.toString.splitOn " ").filter (· ≠ "") with
